@@ -5,8 +5,9 @@ package rebase
 // C16: REBASE parsing recovers every enzyme record and decodes suppliers.
 //
 // verif:bound C16 listings with 0..1 prose lines before the supplier table, 1..3 supplier lines indented with 16 spaces (as in the distributed file) or tabs, 0..2 (quick) / 0..3 (thorough) records <1>..<8>; every field 0..2 symbolic bytes (printable ASCII without '<'; two length patterns per record: all two bytes / empty and short fields), isoschizomer lists of 0 or 2 names, 0 or 2 supplier letters per enzyme; enzyme names and supplier letters pairwise distinct
+// verif:bound C16 export-text clause: two enzymes with quotes, backslashes, tabs, <, >, & in their fields and 3+2 symbolic printable bytes, exported through the engine's JSON text layer and parsed back
 // verif:bound C16 long-line clause: one record whose isoschizomer line has 65530 / 70000 characters
-// verif:bound C16 outside the claim: 300 records, 15 supplier letters, the JSON text layer of Export (only the field/tag contract, see C15), Read's file handling
+// verif:bound C16 outside the claim: 300 records, 15 supplier letters, Export text beyond the text-layer harness (3+2 symbolic bytes), Read's file handling
 
 func c16Printable() string {
 	var b []byte
@@ -208,4 +209,33 @@ func Harness_C16_Export() {
 			vAssert(vEqStr(e.CommercialAvailability[i], b.CommercialAvailability[i]), "export-keeps-suppliers")
 		}
 	}
+}
+
+// Export through the JSON TEXT layer: the exported bytes parse back to the same map
+func Harness_C16_ExportText() {
+	vJSONText()
+	var e Enzyme
+	e.Name = "Eco\"RI<1>"
+	e.RecognitionSequence = vBytes(3, c16Printable())
+	e.MethylationSite = "3(6) & more"
+	e.MicroOrganism = "Escherichia coli \\ RY13"
+	e.Isoschizomers = []string{vBytes(2, c16NoComma()), "Fun\tII"}
+	e.CommercialAvailability = nil
+	m := map[string]Enzyme{e.Name: e, "Zzz": {Name: "Zzz", Isoschizomers: []string{}}}
+	text := Export(m)
+	var back map[string]Enzyme
+	err := vUnmarshalEnzymes(text, &back)
+	vAssert(err == nil, "export-text-parses-back")
+	vAssert(len(back) == 2, "export-text-keeps-every-entry")
+	b, ok := back[e.Name]
+	vAssert(ok, "export-text-keeps-keys")
+	vAssert(vAnd(vEqStr(b.RecognitionSequence, e.RecognitionSequence), vEqStr(b.MethylationSite, e.MethylationSite), vEqStr(b.MicroOrganism, e.MicroOrganism)), "export-text-keeps-fields")
+	vAssert(len(b.Isoschizomers) == 2 && vEqStr(b.Isoschizomers[0], e.Isoschizomers[0]) && b.Isoschizomers[1] == "Fun\tII", "export-text-keeps-isoschizomers")
+	vAssert(len(b.CommercialAvailability) == 0 && len(back["Zzz"].Isoschizomers) == 0, "export-text-keeps-empty-lists")
+}
+
+func Selftest_C16_ExportText() {
+	vJSONText()
+	m := Parse([]byte("REBASE codes for commercial sources of enzymes\n\n                B        Life \"Tech\" <x> & (3/21)\n\n<1>AaaI\n<2>XmaIII,BseX3I\n<3>C^GGCCG\n<4>\n<5>Acetobacter aceti\n<6>M. Fukaya\n<7>B\n<8>Tagami, H. (1988) \\ pp.\n\n<1>AarI\n<2>\n<3>CACCTGC(4/8)\n<4>\n<5>o\n<6>s\n<7>\n<8>r\n\n"))
+	vOut(string(Export(m)))
 }
